@@ -59,6 +59,67 @@ def addresses(ctx):
     return fails, n
 
 
+def h2c_upgrade_cases(ctx):
+    """A bodiless HTTP/1.1 request offering Upgrade: h2c is served as HTTP/2 stream 1: its scope must report what the client
+    sent, like that of any other request, for every split of the request bytes."""
+    import random
+    from urllib.parse import unquote
+
+    import h2.config
+    import h2.connection
+
+    from . import rig as R
+    from . import sched as S
+
+    rng = random.Random(ctx.seed * 7919 + 11)
+    fails, n = [], ctx.scale(60, 600, 200)
+    for i in range(n):
+        method = rng.choice(["GET", "GET", "HEAD", "DELETE", "OPTIONS", "PATCH"])
+        path = "/" + "/".join(rng.choice(["a", "b%20c", "%C3%A9", "x.y", "~", "%2F", "p"]) for _ in range(rng.randint(0, 3)))
+        query = rng.choice(["", "", "x=1", "a=%20&b", "q"])
+        target = path + ("?" + query if query else "")
+        c = h2.connection.H2Connection(h2.config.H2Configuration(client_side=True, header_encoding=None))
+        settings = c.initiate_upgrade_connection()
+        hs = [(b"Host", rng.choice([b"example.com", b"h:8000"]))]
+        for _ in range(rng.randint(0, 3)):
+            hs.append((rng.choice([b"X-A", b"accept", b"X-Mixed-Case", b"cookie"]), rng.choice([b"1", b"", b"a, b", b"v=1; w=2"])))
+        hs += [(b"Connection", b"Upgrade, HTTP2-Settings"), (b"Upgrade", rng.choice([b"h2c", b"h2c", b"H2c"])), (b"HTTP2-Settings", settings)]
+        rng.shuffle(hs)
+        data = (f"{method} {target} HTTP/1.1\r\n".encode() + b"".join(k + b": " + v + b"\r\n" for k, v in hs) + b"\r\n")
+        cuts = sorted(set(rng.randint(1, len(data) - 1) for _ in range(rng.choice([0, 1, 2, 5]))))
+        worker = rng.choice(["asyncio", "trio"])
+        d = S.Driver(seed=ctx.seed + i, policy=rng.choice(["fifo", "random"]))
+        cfg = R.make_config()
+        cfg._log = R.RecLog([])
+        recs = []
+        resp = [("recv_all",), ("send", {"type": "http.response.start", "status": 200, "headers": []}),
+                ("send", {"type": "http.response.body", "body": b"ok"})]
+        rig = S.ProtoRig(S.scripted_app([resp] * 3, recs, d), cfg, d, worker=worker)
+        for a, b in zip([0] + cuts, cuts + [len(data)]):
+            rig.feed(data[a:b])
+            rig.run()
+        rig.feed(c.data_to_send())
+        rig.run()
+        case = {"kind": "h2c-upgrade", "request": data.decode("latin1"), "cuts": cuts, "worker": worker}
+        want = {"type": "http", "http_version": "2", "method": method, "scheme": "http", "path": unquote(path), "raw_path": path.encode(),
+                "query_string": query.encode(), "headers": ([(k.lower(), v) for k, v in hs if k == b"Host"]           # HTTP/2: host is what :authority says, ahead of the rest
+                            + [(k.lower(), v) for k, v in hs if k != b"Host"]), "client": ("10.0.0.1", 4321), "server": ("10.0.0.2", 80)}
+        if len(recs) != 1:
+            fails.append({"case": case, "what": f"{len(recs)} application instances for one upgraded request", "signature": "c01:h2c:instances"})
+            continue
+        got = {k: recs[0]["scope"].get(k) for k in want}
+        got["headers"] = [tuple(h) for h in got["headers"] or []]
+        got["client"], got["server"] = tuple(got["client"] or ()), tuple(got["server"] or ())
+        diff = sorted(k for k in want if got[k] != want[k])
+        if diff:
+            fails.append({"case": case, "what": "scope of the upgraded request: " + "; ".join(f"{k} = {got[k]!r}, expected {want[k]!r}" for k in diff),
+                          "signature": "c01:h2c:" + ",".join(diff)})
+        reqs = [m for m in recs[0]["received"] if m["type"] == "http.request"]
+        if [(m.get("body", b""), bool(m.get("more_body"))) for m in reqs] != [(b"", False)]:
+            fails.append({"case": case, "what": f"body messages of the upgraded request: {reqs}", "signature": "c01:h2c:body"})
+    return fails, n
+
+
 def run(ctx):
     h2x = K.h2_extra(["c01"], (150, 2500, 800), crashes=True)
 
@@ -68,6 +129,10 @@ def run(ctx):
         r["failures"] = list(r["failures"]) + f
         r["count"] += n
         r["dist"]["address_cases"] = n
+        f, n = h2c_upgrade_cases(c)
+        r["failures"] = list(r["failures"]) + f
+        r["count"] += n
+        r["dist"]["h2c_upgrade_cases"] = n
         return r
 
     return K.run_common(ctx, PROP, ["c01"], (250, 3000, 1000), (300, 3000, 1000), (250, 4000, 1500), kw,
